@@ -29,6 +29,8 @@ RULE = (
     "checked too) and equality with the pythonisation of the raw Client's result for the same "
     "call on an identical fresh agent. Non-trivial: the result holds >=1 leaf; distinct by "
     "(operation, level, multiset of leaf value kinds)."
+    " Half of the multiwalk/bulkwalk cases walk 2-7 sibling roots (x.1 / x.10..x.13, x.2 / x."
+    "20, table columns) in any order."
 )
 ASSUMPTIONS = [
     "pythonisation per type: INTEGER/Counter/Gauge/Counter64 -> int, OCTET STRING/Opaque -> bytes, OID -> dotted str, IpAddress -> IPv4Address, TimeTicks -> timedelta(10 ms * t), NULL and exception markers -> None",
